@@ -115,6 +115,16 @@ pub fn generate(sink: &mut Sink, seed: u64, thorough: bool) {
     for (name, bytes) in bundled_files(if thorough { 800_000 } else { 60_000 }) {
         sources.push((format!("bundled_{name}"), bytes, false));
     }
+    // files of the independent specification encoder (every legal layout; metadata combinations the bundled
+    // files do not have, e.g. colour AND intensity limits): they do not depend on the writer under test
+    match crate::eng_layout::encoded_files(&mut rng, if thorough { 300 } else { 50 }) {
+        Some(fs) => {
+            for (k, f) in fs.into_iter().enumerate() {
+                sources.push((format!("encoded_{k}"), f, false));
+            }
+        }
+        None => sink.fail("C19", "copy/encoder-unavailable", "", "E57MODEL is not set or the encoder could not be run"),
+    }
     let mut sweeps_done = 0;
     for (tag, file, own) in sources {
         let Ok(Ok(sc)) = guarded(|| read_scene(&file, 1_000_000)) else {
